@@ -77,3 +77,9 @@ func Verif_C05_T1b_NeedsRefreshVerdict() {
 		vnd.Cover("fresh")
 	}
 }
+
+// T2 / T3 through the real access layers over a quiescent index and location map.
+func Verif_C05_T2_FlatGetTouch()         { verifScenarioFlatTouch(false) }
+func Verif_C05_T2_FlatFindMissingTouch() { verifScenarioFlatTouch(true) }
+func Verif_C05_T2_HierGetTouch()         { verifScenarioHierTouch(false) }
+func Verif_C05_T2_HierFindMissingTouch() { verifScenarioHierTouch(true) }
